@@ -89,4 +89,23 @@ def powLoop (P : Params) : Nat → Nat → Nat → Nat → Option Nat
 
 def pow (P : Params) (a e : Nat) : Option Nat := powLoop P (bitLen e) a e 1
 
+/-- Generator-order certificate found by the translator (`tools/extractors/c08_gf.py`):
+`gen ^ (2^bits - 1) = 1` and `gen ^ ((2^bits - 1) / q) ≠ 1` for every prime `q` of
+`orderFactors`, which lists the prime factorisation `∏ q^e` of `2^bits - 1`.
+For a reducible polynomial no certificate exists; then `zeroDivisor = some (f, h)`, `f·h = POLYNOMIAL`. -/
+structure Cert where
+  field : Params
+  gen : Nat
+  orderFactors : List (Nat × Nat)
+  zeroDivisor : Option (Nat × Nat)
+
+/-- The executable part of the certificate check (primality of the listed factors is proved
+separately in `Props/C08GfField`). -/
+def certOk (C : Cert) : Bool :=
+  let n := 2 ^ C.field.bits - 1
+  C.gen < 2 ^ C.field.bits
+    && (C.orderFactors.map (fun qe => qe.1 ^ qe.2)).foldl (· * ·) 1 == n
+    && pow C.field C.gen n == some 1
+    && C.orderFactors.all (fun qe => pow C.field C.gen (n / qe.1) != some 1)
+
 end IpaVerif.Gf2k
